@@ -148,6 +148,78 @@ def range_part(chk, tier, seed, rnd):
     return len(events) - len(canaries)
 
 
+def words_part(chk, tier, seed, rnd):
+    """first sentence of C08 on field-corner words: GenWords.tla enumerates every 32-bit word that is a union of at most
+    2 (thorough: 3) runs of one bits; each is decoded by every CPU's decoder in four byte arrangements; the observations
+    are projected on (length, text length class, guard, local) and TLC judges every distinct projection"""
+    vdir = C.ensure_build("rel")
+    rd = chk.rundir
+    cfg = C.tlc_cfg_with("gen_Words.cfg", rd, {"MaxRuns": 2 if tier == "quick" else 3})
+    g = C.tlc("GenWords", cfg, os.path.join(rd, "genwords"), workers=8, heap="6g")
+    chk.add_tlc(g)
+    words = sorted({"%04x%04x" % (w[0], w[1]) for w in C.parse_payload(g.lines, "CASE ")})
+    if len(words) < (40000 if tier == "quick" else 1100000):
+        raise C.InfraError("GenWords gave %d words" % len(words))
+    cpus = [c for c in K.cpu_list(vdir) if c["name"] not in K.out_of_scope("C08")]
+    by_name = {c["name"]: c for c in cpus}
+    step = 60000
+    chunks = ["\n".join(words[i:i + step]) for i in range(0, len(words), step)]
+    cases = []
+    for c in cpus:
+        for k, body in enumerate(chunks):
+            cases.append(("w.%s.%d" % (c["name"], k), "kind=dsum cpu=%s addr=%d" % (c["name"], 0x1000 if k % 2 else 0), body))
+    obs = C.conform_parallel(vdir, "codec", cases, rd, "words", 600, nproc=C.NCPU)
+    byid = {o["case"]: o for o in obs}
+    if len(byid) != len(cases):
+        raise C.InfraError("conform returned %d of %d word cases" % (len(byid), len(cases)))
+    events, where, decodes = [], {}, 0
+    for cs in cases:
+        o = byid[cs[0]]
+        cpu = cs[1].split("cpu=")[1].split()[0]
+        if o.get("died") or "classes" not in o:
+            chk.report("C08:%s:decoder died (%s)" % (cpu, (o.get("san") or "signal %s" % o.get("sig"))[:60]),
+                       "decoder died on a field-corner word of case %s: %s" % (cs[0], {k: v for k, v in o.items() if k != "classes"}),
+                       dict(case=cs[:2], observed={k: v for k, v in o.items() if k != "classes"}))
+            continue
+        decodes += o["total"]
+        for q, cl in enumerate(o["classes"]):
+            eid = "%s.%d" % (cs[0], q)
+            where[eid] = (cs, cl)
+            events.append({"id": eid, "kind": "dis", "cpu": cpu, "unit": by_name[cpu]["bpa"], "len": cl["len"], "tlen": cl["tlen"],
+                           "guard": cl["guard"], "loc": cl["loc"], "acc": False, "n1": [], "n2": [], "len2": 0})
+    canaries = set()
+    good = [e for e in events if e["len"] >= e["unit"] and e["loc"] and e["guard"] and e["tlen"] < 128]
+    for e in rnd.sample(good, min(8, len(good))):
+        c = json.loads(json.dumps(e))
+        c["id"] = "canary." + e["id"]
+        c["len"] = 1000001
+        canaries.add(c["id"])
+        events.append(c)
+    verdicts, runs = C.tlc_accept("TraceCodec", "trace_Codec.cfg", events, rd, "words", heap="2g", nchunks=4)
+    for r in runs:
+        chk.add_tlc(r)
+    bad = {v["id"]: v["why"] for v in verdicts if v["p"] == "C08"}
+    missed = [c for c in canaries if c not in bad]
+    if missed:
+        raise C.InfraError("word canaries accepted: %s" % missed[:3])
+    # a rejected projection is listed instruction by instruction (one per distinct text shape) and reported like the sweep's cases
+    again = []
+    for eid, why in sorted(bad.items()):
+        if eid in canaries:
+            continue
+        cs, cl = where[eid]
+        again.append((eid, cs[1] + " expand=%d:%d:%d:%d" % (cl["len"], cl["tlen"], int(cl["guard"]), int(cl["loc"])), cs[2], why))
+    if again:
+        obs2 = {o["case"]: o for o in C.conform_parallel(vdir, "codec", [a[:3] for a in again], rd, "wordsx", 600, nproc=C.NCPU)}
+        for eid, opts, body, why in again:
+            cpu = opts.split("cpu=")[1].split()[0]
+            for cl in obs2.get(eid, {}).get("classes", []):
+                key = "C08:%s:%s:%s" % (cpu, why, K.shape(cl["text"]).split(" ")[0] if cl["len"] < 1 else K.shape(cl["text"]))
+                chk.report(key, "%s: .%s bytes %s at %s -> len %d '%s'" % (why, cpu, cl["w"], opts.split("addr=")[1].split()[0], cl["len"], cl["text"]),
+                           dict(case=dict(id=eid, opts=opts.split(" expand=")[0].replace("dsum", "dis"), bytes=cl["w"]), observed=cl, why=why))
+    return decodes, len(events) - len(canaries), len(canaries), len(words)
+
+
 def run_prop(prop, tier, seed):
     chk = C.Check(prop, tier, seed, "model_checking")
     rnd = random.Random(seed)
@@ -167,13 +239,17 @@ def run_prop(prop, tier, seed):
         total_events += ne
         ncan += nc
     nrange = range_part(chk, tier, seed, rnd) if prop == "C08" else 0
+    wdec, wev, wcan, nwords = words_part(chk, tier, seed, rnd) if prop == "C08" else (0, 0, 0, 0)
+    ncan += wcan
+    total_events += wev
     weak = sorted(k for k, s in stats.items() if s["decoded"] and s["accepted"] * 20 < s["decoded"])
     chk.cov.update(dict(
-        evaluations=total_cases + nrange, range_walks=nrange,
+        evaluations=total_cases + nrange + wdec, range_walks=nrange, corner_words=nwords, corner_word_decodes=wdec,
         distinct_nontrivial=len(distinct),
         rule="for every CPU of cpu_list[]: leading 16-bit patterns (quick: 3000 seeded + boundary ones; thorough: all 65,536) "
              "followed by 14 fill bytes (zeros, ones, 55aa, seeded random), at address 0 or 0x1000; non-trivial = decodes "
-             "to a non-empty text; distinct by (cpu, normalised text)",
+             "to a non-empty text; distinct by (cpu, normalised text); C08 also: every 32-bit word that is a union of at most 2 "
+             "(thorough: 3) runs of one bits (GenWords.tla), in four byte arrangements, projected on (length, text length class, guard, local)",
         traces_validated_against_impl=total_events,
         per_cpu=stats, weak=weak, cpus=len(allcpus), not_covered=sorted(K.out_of_scope(prop)),
         canaries=dict(injected=ncan, rejected=ncan),
